@@ -310,6 +310,7 @@ package mcp
 //@
 //@ func stdioClientTransport.close
 //@   loop 1 invariant[C07] forall k int64 :: (k in t.pendingRequests) ==> !closed(t.pendingRequests[k])
+//@   loop 1 invariant[C01] forall k int64 :: (k in t.pendingRequests) ==> chancap(t.pendingRequests[k]) >= 1
 //@ func stdioClientTransport.close$1
 //@   requires[C07] done != nil && !closed(done)
 //@ func sseClientTransport.close
@@ -1327,12 +1328,11 @@ package mcp
 // handleRequestError is for Go errors only
 //@ func SSEServer.processRequestAsync
 //@   before call Marshal#1 assert[C14,C03 error-object-passed-through] isnil(lasterr) && arg0 == lastres && istype(lastres, *JSONRPCError)
-//@   before call handleRequestError#1 assert[C14,C03 only-go-errors-become-internal-errors] !isnil(lasterr)
+//@   before call handleRequestError#0 assert[C14,C03 only-go-errors-become-internal-errors] !isnil(lasterr) && arg1 == asany(lasterr)
 //@
 // C15 / C13 — the core handler dispatches with the context and request it is called with (what the middlewares passed on)
 //@ func mcpHandler.handleRequest$1
-//@   before call dispatchRequest#1 assert[C15 the-core-uses-the-context-the-chain-passes-down] arg1 == ctx && arg2 == req
-//@   before call dispatchRequest#2 assert[C15 the-core-uses-the-context-the-chain-passes-down] arg1 == ctx && arg2 == req
+//@   before call dispatchRequest#0 assert[C15 the-core-uses-the-context-the-chain-passes-down] arg1 == ctx && arg2 == req
 //@
 // C10 — in-call notifications are dispatched synchronously on the reader: no goroutine on the dispatch path
 //@ func streamableHTTPClientTransport.handleSSEResponse
@@ -1351,8 +1351,10 @@ package mcp
 // C01 / C05 — answers are handed over with a non-blocking send, so every registered response
 // channel must be buffered: an answer that arrives before the caller starts waiting is kept
 //@ type stdioClientTransport
+//@   guarded[C01] pendingRequests by pendingMutex
 //@   lockinv[C01 registered-response-channels-are-buffered] pendingMutex: forall k int64 :: (k in self.pendingRequests) ==> chancap(self.pendingRequests[k]) >= 1
 //@ type sseClientTransport
+//@   guarded[C01] responses by responsesMu
 //@   lockinv[C01 registered-response-channels-are-buffered] responsesMu: forall k string :: (k in self.responses) ==> chancap(self.responses[k]) >= 1
 //@ type responseManager
 //@   lockinv[C05 registered-response-channels-are-buffered] mutex: forall k string :: (k in self.pendingRequests) ==> chancap(self.pendingRequests[k]) >= 1
